@@ -375,9 +375,10 @@ func (w *sortedWriter) handleRequests() {
 
 	process := func(req *request) {
 		for i, e := range req.Entries {
-			// If badger is running in InMemory mode, len(req.Ptrs) == 0.
+			// If badger is running in InMemory mode, len(req.Ptrs) == 0: there is no value log, so
+			// every value (also one of exactly ValueThreshold bytes) stays in the LSM tree.
 			var vs y.ValueStruct
-			if e.skipVlogAndSetThreshold(w.db.valueThreshold()) {
+			if w.db.opt.InMemory || e.skipVlogAndSetThreshold(w.db.valueThreshold()) {
 				vs = y.ValueStruct{
 					Value:     e.Value,
 					Meta:      e.meta,
